@@ -7,14 +7,16 @@ from harness.common import CONFIGS, F, enc, fl, pick_dtype
 
 ID = "C06"
 PROPS_FILE = "Props/C06.v"
-COQ_IMPORTS = "From SA Require Import Model.Harness."
+COQ_IMPORTS = ("From SA Require Import Model.Harness.\nFrom SA Require Model.FloatThreshold Model.FloatEer.\n"
+               "From Coq Require Import Floats.PrimFloat.")
 GEN_AVAILABLE = set()
 XTOL = Fraction(1e-10)
 RULE = ("Scores with both classes non-empty: overlapping, perfectly separated, perfectly inverted (edge branch with equal "
         "and unequal easy ratios), boundary ties, flat spots; 4 configurations; easy counts; stream E (class sizes and "
         "size+easy powers of two, small dyadic distinct scores) compared bit-for-bit with the model incl. the bisection; "
         "stream F oracle only; non-trivial: classes overlap or easy samples present")
-TRUSTED = ["np.isclose / 1e-10 / 1e-8 / 1e-5 as the exact rationals of the doubles",
+TRUSTED = ["Model/FloatEer.v + Model/FloatThreshold.v (binary64 models over Coq primitive floats, compared bit for bit on every case): kernel float primitives + vm_compute on hardware doubles; correspondence only, no theorem depends on them",
+           "np.isclose / 1e-10 / 1e-8 / 1e-5 as the exact rationals of the doubles",
            "bisection midpoints of dyadic intervals are exact in binary64 (stream E)"]
 ASSUMPTIONS = ["both classes non-empty", "crossing clauses: no value repeated within or across classes, moderate magnitude; "
                "zero-EER clause: all inputs"]
@@ -68,7 +70,26 @@ def gen_case(rng, exact):
 
 def gen_cases(rng, tier):
     n = {"quick": 260, "thorough": 4000, "search": 2500}[tier]
-    return [gen_case(rng, rng.random() < 0.6) for _ in range(n)]
+    cases = [gen_case(rng, rng.random() < 0.6) for _ in range(n)]
+    # narrow integer dtypes with scores near the end of the dtype's range (quantised scores): sums of two scores do not fit
+    for j in range({"quick": 8, "thorough": 60, "search": 20}[tier]):
+        dt = ["int8", "uint8", "int8", "uint8", "int16", "uint16"][j % 6]
+        top = {"int8": 127, "uint8": 255, "int16": 32767, "uint16": 65535}[dt]
+        lo = top - rng.randint(30, 60)
+        vals = sorted(rng.sample(range(lo, top + 1), rng.randint(4, 10)))
+        sc, ec = rng.choice(CONFIGS)
+        kind = rng.choice(["separated", "separated", "overlap", "inverted"])
+        k = rng.randint(1, len(vals) - 1)
+        if kind == "overlap":
+            rng.shuffle(vals)
+            pos, neg = vals[:k], vals[k:]
+        else:
+            hi_is_pos = (sc == "pos") == (kind == "separated")
+            pos, neg = (vals[k:], vals[:k]) if hi_is_pos else (vals[:k], vals[k:])
+        cases.append({"pos": [enc(Fraction(x)) for x in pos], "neg": [enc(Fraction(x)) for x in neg], "ep": rng.choice([0, 0, 3]),
+                      "en": rng.choice([0, 2]), "sc": sc, "ec": ec, "exact": False, "kind": kind + "-narrow-int", "dtype": dt,
+                      "warmup": [], "a": enc(Fraction(1, 2)), "b": enc(Fraction(1))})
+    return cases
 
 
 def run_impl(case):
@@ -101,13 +122,28 @@ def run_impl(case):
     return out
 
 
+def _float_term(case, r):
+    """binary64 model (Model/FloatEer.v): (t, e) bit for bit, on every input (every dtype: all arithmetic of eer() is
+    done in double precision since the fix of the perfect-separation midpoint)"""
+    lab = {"pos": "FloatThreshold.FPos", "neg": "FloatThreshold.FNeg"}
+    pos = sorted(fl(x) for x in case["pos"])
+    neg = sorted(fl(x) for x in case["neg"])
+    s = (f"(FloatThreshold.mkF {cq.f64list(pos)} {cq.f64list(neg)} {cq.z(case['ep'])} {cq.z(case['en'])} "
+         f"{lab[case['sc']]} {lab[case['ec']]})")
+    return f"(FloatEer.eer_agree (FloatEer.eer_f 200 {s}) {cq.f64(fl(r['t']))} {cq.f64(fl(r['e']))})"
+
+
 def coq_term(case, res):
-    if not case.get("exact") or "ok" not in res:
-        return None if "ok" in res else "false"
+    if "ok" not in res:
+        return "false"
     r = res["ok"]
+    ft = _float_term(case, r)
+    if not case.get("exact"):
+        return ft          # arbitrary doubles: the binary64 model only
     # e is compared exactly; t within a few ulp (adding two sentinels, e.g. (pred a + succ b)/2, rounds in binary64)
     tol = tc.tau(dict(case, metric="topr"))
-    return f"eer_agree {cq.q(tol)} 0 {tc.scores_term(case)} {cq.q(F(r['t']))} {cq.q(F(r['e']))}"
+    q = f"eer_agree {cq.q(tol)} 0 {tc.scores_term(case)} {cq.q(F(r['t']))} {cq.q(F(r['e']))}"
+    return q + (f" && {ft}" if ft else "")
 
 
 def _gaps(vals):
